@@ -9,6 +9,7 @@ import (
 	"runtime/metrics"
 	"sync"
 	"sync/atomic"
+	"syscall"
 	"time"
 
 	"github.com/cuteLittleDevil/go-jt808/attachment"
@@ -43,6 +44,7 @@ func init() {
 				{Name: "att-default", Bin: "race", Batches: n, Parallel: 4, TimeoutS: 900},
 				{Name: "att-recording", Bin: "race", Batches: n, Parallel: 4, TimeoutS: 900},
 				{Name: "parser-games", Bin: "plain", Batches: 1, TimeoutS: 900},
+				{Name: "fd-exhaustion", Bin: "plain", Batches: 1, TimeoutS: 600},
 			}
 		},
 		Assumptions: []string{
@@ -57,6 +59,7 @@ func init() {
 		"att-default":   func(c *core.Collector, x *Ctx) { c10Att(c, x, true) },
 		"att-recording": func(c *core.Collector, x *Ctx) { c10Att(c, x, false) },
 		"parser-games":  c10Games,
+		"fd-exhaustion": c10FD,
 	})
 }
 
@@ -1026,4 +1029,132 @@ func c10Games(c *core.Collector, x *Ctx) {
 		}
 	})
 	c.Floor("sequences_with_timer_paths_reached", 1000)
+}
+
+// ---- descriptor exhaustion -----------------------------------------------------------------------------------
+//
+// One client that opens connections and holds them can use up the server process's file descriptors: accept then
+// fails with EMFILE for a while. That is a connection lifecycle like any other of the property: while it lasts new
+// clients cannot be served, but once the hostile client lets go the servers must accept again and established sessions
+// must have survived. The child lowers its own RLIMIT_NOFILE (client and server ends live in this process), floods
+// each server, releases, and probes.
+func c10FD(c *core.Collector, x *Ctx) {
+	c.Rule = "descriptor exhaustion: RLIMIT_NOFILE of the child lowered to 160; per round a flood of up to 400 held-open connections against the JT808 server and the attachment server (dials continue until they fail), released after 150 ms; " +
+		"oracle: the established session still gets its replies and a fresh connection is served by each server after every round. evaluation = one round"
+	var lim syscall.Rlimit
+	if err := syscall.Getrlimit(syscall.RLIMIT_NOFILE, &lim); err != nil {
+		c.Inconclusive()
+		return
+	}
+	devnull, _ := os.OpenFile("/dev/null", os.O_WRONLY, 0)
+	os.Stdout = devnull
+	srv, err := svc.Start(nil)
+	if err != nil {
+		c.Inconclusive()
+		return
+	}
+	attAddr, err := att.StartTCP(attachment.WithFileEventerFunc(func() attachment.FileEventer { return &att.Recorder{} }))
+	if err != nil {
+		c.Inconclusive()
+		return
+	}
+	est, err := svc.Dial(srv.Addr, false, "9400001")
+	if err != nil {
+		c.Inconclusive()
+		return
+	}
+	defer est.Close()
+	estSerial := uint16(0)
+	estRound := func() string {
+		estSerial++
+		if est.Write(est.Frame(0x0002, estSerial, nil)) != nil {
+			return "write failed"
+		}
+		rx, ok, to := est.Next(20 * time.Second)
+		if to {
+			return "timeout"
+		}
+		if !ok || rx.F == nil || rx.F.ID != 0x8001 || int(rx.F.Serial) != int(estSerial-1) {
+			return "closed or wrong reply"
+		}
+		return ""
+	}
+	if w := estRound(); w != "" {
+		c.Inconclusive()
+		return
+	}
+	low := lim
+	low.Cur = 160
+	if err := syscall.Setrlimit(syscall.RLIMIT_NOFILE, &low); err != nil {
+		c.Inconclusive()
+		return
+	}
+	defer syscall.Setrlimit(syscall.RLIMIT_NOFILE, &lim)
+	rounds := c.N(6, 30)
+	for round := 0; round < rounds; round++ {
+		addr := []string{srv.Addr, attAddr}[round%2]
+		var held []net.Conn
+		failed := 0
+		for i := 0; i < 400 && failed < 20; i++ {
+			cn, err := net.DialTimeout("tcp", addr, 2*time.Second)
+			if err != nil {
+				failed++
+				time.Sleep(2 * time.Millisecond)
+				continue
+			}
+			held = append(held, cn)
+		}
+		x.Journal.Log(true, "fd round %d against %s: %d connections held, %d dials failed", round, addr, len(held), failed)
+		time.Sleep(150 * time.Millisecond)
+		for _, cn := range held {
+			if round%3 == 0 {
+				cn.(*net.TCPConn).SetLinger(0)
+			}
+			cn.Close()
+		}
+		c.Count("flood_connections_held", int64(len(held)))
+		if failed > 0 {
+			c.Count("rounds_that_reached_the_descriptor_limit", 1)
+		}
+		time.Sleep(150 * time.Millisecond)
+		c.Eval()
+		c.NonTrivial(core.HashString(fmt.Sprintf("fd/%d/%d", x.Batch, round)))
+		// the established session survived
+		if w := estRound(); w == "timeout" {
+			c.Inconclusive()
+		} else if w != "" {
+			c.Violate("canary|established well-behaved session was closed by the server", "after a flood of held-open connections exhausted the process's descriptors: "+w, nil)
+			return
+		}
+		// both servers accept again
+		ok, to := false, false
+		for try := 0; try < 40 && !ok; try++ { // the released descriptors come back as the servers notice the closes
+			ok, to = c10Probe(srv.Addr, 9500000+x.Batch*1000+round*50+try)
+			if !ok {
+				time.Sleep(50 * time.Millisecond)
+			}
+		}
+		if to {
+			c.Inconclusive()
+		} else if !ok {
+			c.Violate("accept|the JT808 server no longer serves new connections after descriptor exhaustion ended", fmt.Sprintf("round %d (flood against %s)", round, addr), nil)
+			return
+		}
+		aok, ato, detail := false, false, ""
+		for try := 0; try < 40 && !aok; try++ {
+			aok, ato, detail = c10AttSession(attAddr, 9600000+x.Batch*1000+round*50+try)
+			if !aok {
+				time.Sleep(50 * time.Millisecond)
+			}
+		}
+		if ato {
+			c.Inconclusive()
+		} else if !aok {
+			c.Violate("accept|the attachment server no longer serves new connections after descriptor exhaustion ended", fmt.Sprintf("round %d (flood against %s): %s", round, addr, detail), nil)
+			return
+		}
+		c.Count("rounds_after_which_both_servers_served_new_clients", 1)
+	}
+	c.Floor("rounds_that_reached_the_descriptor_limit", 2)
+	c.Floor("rounds_after_which_both_servers_served_new_clients", 4)
 }
